@@ -1,14 +1,14 @@
 #!/bin/bash
-# run every delivered seed under /tmp/seed against its property's quick check; log to build/seedruns/summary.txt
+# run every stored seed (/verif/seeded/Cxx-k/patch.diff) against its property's quick check;
+# results appended to build/seedruns/summary.txt (seeds already listed there are skipped)
 mkdir -p /verif/build/seedruns
-for d in /tmp/seed/C*/change*; do
-  p=$(basename $(dirname $d)); k=$(basename $d)
+for d in /verif/seeded/C*-*; do
+  name=$(basename $d); p=${name%%-*}
   [ -f $d/patch.diff ] || continue
-  tag=$p-$k
-  grep -q "^$tag " /verif/build/seedruns/summary.txt 2>/dev/null && continue
-  out=$(/verif/tools/try_seed.sh $tag $d/patch.diff $p 2>&1)
+  grep -q "^$name " /verif/build/seedruns/summary.txt 2>/dev/null && continue
+  out=$(/verif/tools/try_seed.sh $name $d/patch.diff $p 2>&1)
   suite=$(echo "$out" | grep -E "passed|failed" | head -1)
   nviol=$(echo "$out" | grep -c "^VIOLATION")
   line=$(echo "$out" | grep "theorems" | head -1)
-  echo "$tag suite=[$suite] violations=$nviol :: $line" >> /verif/build/seedruns/summary.txt
+  echo "$name suite=[$suite] violations=$nviol :: $line" >> /verif/build/seedruns/summary.txt
 done
